@@ -703,6 +703,71 @@ func (r *runner) marketCycle(rng *sim.Rng, c cfg) {
 	}
 }
 
+// farmCycle: the pool id != pair id axis and the top-up of an ACTIVE farm position: a farmer whose first farm has
+// matured farms again in the same pool (preferably a pool whose id differs from its pair's id, e.g. the second pool
+// of a pair), the second entry matures into the existing active record, then the position is partly unfarmed.
+func (r *runner) farmCycle(rng *sim.Rng, c cfg) {
+	if !c.pools {
+		return
+	}
+	app := c.apps[rng.Intn(len(c.apps))]
+	pick := func() (M, bool) {
+		var any M
+		for _, p := range r.st["pools"].([]M) {
+			if p["app"].(int64) != app || p["disabled"].(bool) {
+				continue
+			}
+			if p["id"].(int64) != p["pair"].(int64) {
+				return p, true
+			}
+			any = p
+		}
+		return any, any != nil
+	}
+	pl, ok := pick()
+	if (!ok || pl["id"].(int64) == pl["pair"].(int64)) && r.st["lastPool"].([]int64)[app-1] < MaxPool {
+		prs := c.pairsOf[app]
+		pair := prs[rng.Intn(len(prs))]
+		ctr := r.centre(app, pair)
+		x := int64(20000)
+		r.step("CreateRangedPool", M{"u": Users[rng.Intn(3)], "app": app, "pair": pair, "x": x, "y": x * PS / ctr,
+			"min": tickOf(ctr * 8 / 10), "max": tickOf(ctr * 12 / 10), "init": tickOf(ctr)})
+		pl, ok = pick()
+	}
+	if !ok {
+		return
+	}
+	pool, pair := pl["id"].(int64), pl["pair"].(int64)
+	ctr := r.centre(app, pair)
+	u := Users[rng.Intn(3)]
+	dep := func() {
+		x := []int64{1000, 3000, 5000}[rng.Intn(3)]
+		r.step("DepositAndFarm", M{"u": u, "app": app, "pool": pool, "x": x, "y": x * PS / ctr})
+	}
+	dep()
+	if rng.Intn(2) == 0 {
+		if pc := r.balOf(u, fmt.Sprintf("pool%d-%d", app, pool)); pc > 1 {
+			r.step("Farm", M{"u": u, "app": app, "pool": pool, "amt": pc / 2})
+		}
+	}
+	r.block(90000)
+	r.batchOf(app) // the queue matures: the farmer is active
+	dep()          // top-up of an active position
+	if rng.Intn(2) == 0 {
+		r.block(3600)
+		dep() // two queue entries of different age
+	}
+	r.block(90000)
+	r.batchOf(app)
+	tot := r.farmedBy(u, app, pool)
+	if tot > 2 {
+		r.step("Unfarm", M{"u": u, "app": app, "pool": pool, "amt": tot * 2 / 3})
+		if rng.Intn(2) == 0 {
+			r.step("UnfarmAndWithdraw", M{"u": u, "app": app, "pool": pool, "amt": r.farmedBy(u, app, pool) / 2})
+		}
+	}
+}
+
 // cancelAllCycle: one user has an older order in the higher-id pair and a fresh order (current batch) in the
 // lower-id pair of the same app, then cancels all orders (all pairs / named pairs).
 func (r *runner) cancelAllCycle(rng *sim.Rng, c cfg) {
@@ -869,6 +934,7 @@ func driveRandom(lg *sim.Log, base *World, seed int64, runs, steps int) {
 		lad := []int{steps / 6, steps / 2, steps * 5 / 6}
 		call := []int{steps / 3, steps * 3 / 4}
 		mkt := []int{steps / 5, steps * 2 / 5, steps * 7 / 10}
+		frm := []int{steps * 11 / 20}
 		for r.n < steps {
 			switch {
 			case c.mm && len(cyc) > 0 && r.n >= cyc[0]:
@@ -880,6 +946,9 @@ func driveRandom(lg *sim.Log, base *World, seed int64, runs, steps int) {
 			case len(mkt) > 0 && r.n >= mkt[0]:
 				mkt = mkt[1:]
 				r.marketCycle(rng, c)
+			case len(frm) > 0 && r.n >= frm[0]:
+				frm = frm[1:]
+				r.farmCycle(rng, c)
 			case len(call) > 0 && r.n >= call[0]:
 				call = call[1:]
 				r.cancelAllCycle(rng, c)
